@@ -126,20 +126,23 @@ structure PrunedDone (l : List Blk) (st st' : St) : Prop where
   unfinMem : ∀ y, y ∈ st'.unfin ↔ y ∈ st.unfin ∧ y.hash ∉ l.map (·.hash)
   triesSub : ∀ r, r ∈ st'.tries → r ∈ st.tries
   triesGone : ∀ b ∈ l, findB st.unfin b.hash = some b → b.sroot ∉ st'.tries
+  /-- a trie survives unless a pruned block found in the map carries its root -/
+  triesKeep : ∀ r, r ∈ st.tries → (∀ b ∈ l, ∀ hd, findB st.unfin b.hash = some hd → hd.sroot ≠ r) → r ∈ st'.tries
 
 theorem dropPruned_spec : ∀ (l : List Blk) (st : St), PrunedDone l st (dropPruned st l)
   | [], st => by
-    refine ⟨rfl, rfl, rfl, rfl, rfl, rfl, ?_, ?_, ?_, ?_⟩ <;> simp [dropPruned]
+    refine ⟨rfl, rfl, rfl, rfl, rfl, rfl, ?_, ?_, ?_, ?_, ?_⟩ <;> simp [dropPruned]
   | p :: rest, st => by
     have key : ∀ (st1 : St), st1.unfin = deleteB st.unfin p.hash → st1.root = st.root → st1.tree = st.tree →
         st1.dbHdr = st.dbHdr → st1.dbNum = st.dbNum → st1.finKey = st.finKey → st1.highest = st.highest →
         (∀ r, r ∈ st1.tries → r ∈ st.tries) →
         (∀ hd, findB st.unfin p.hash = some hd → hd.sroot ∉ st1.tries) →
+        (∀ r, r ∈ st.tries → (∀ hd, findB st.unfin p.hash = some hd → hd.sroot ≠ r) → r ∈ st1.tries) →
         PrunedDone (p :: rest) st (dropPruned st1 rest) := by
-      intro st1 hu h1 h2 h3 h4 h5 h6 hsub hgone
+      intro st1 hu h1 h2 h3 h4 h5 h6 hsub hgone hkeep
       have ih := dropPruned_spec rest st1
       refine ⟨ih.root.trans h1, ih.tree.trans h2, ih.dbHdr.trans h3, ih.dbNum.trans h4, ih.finKey.trans h5,
-        ih.highest.trans h6, ?_, ?_, fun r hr => hsub r (ih.triesSub r hr), ?_⟩
+        ih.highest.trans h6, ?_, ?_, fun r hr => hsub r (ih.triesSub r hr), ?_, ?_⟩
       · intro x
         rw [ih.unfinFind x, hu, findB_deleteB]
         by_cases h1 : x = p.hash
@@ -161,16 +164,27 @@ theorem dropPruned_spec : ∀ (l : List Blk) (st : St), PrunedDone l st (dropPru
           · exact absurd rfl hbp
           · refine ih.triesGone b hb ?_
             rw [hu, findB_deleteB]; simp [hbp, hfb]
+      · intro r hr hall
+        refine ih.triesKeep r (hkeep r hr (fun hd hf => hall p (List.mem_cons_self ..) hd hf)) ?_
+        intro b hb hd hf
+        rw [hu, findB_deleteB] at hf
+        by_cases hbp : b.hash = p.hash
+        · simp [hbp] at hf
+        · simp only [hbp, if_false] at hf
+          exact hall b (List.mem_cons_of_mem _ hb) hd hf
     unfold dropPruned
     cases hf : findB st.unfin p.hash with
     | none =>
       exact key _ rfl rfl rfl rfl rfl rfl rfl (fun r hr => hr) (fun hd h => by rw [hf] at h; cases h)
+        (fun r hr _ => hr)
     | some hd =>
-      refine key _ rfl rfl rfl rfl rfl rfl rfl ?_ ?_
+      refine key _ rfl rfl rfl rfl rfl rfl rfl ?_ ?_ ?_
       · intro r hr
         exact (mem_triesDelete.mp hr).1
       · intro hd' h
         rw [hf] at h; cases h
         exact fun hm => (mem_triesDelete.mp hm).2 rfl
+      · intro r hr hne
+        exact mem_triesDelete.mpr ⟨hr, Ne.symm (hne hd hf)⟩
 
 end Gossamer.C17
